@@ -140,7 +140,8 @@ def _type_key(t):
         return [cls, _type_key(t.key_type), _type_key(t.value_type)]
     if cls == 'Varargs':
         return ['Varargs']
-    return getattr(t, 'target_giname', None) or getattr(t, 'target_fundamental', None) or ('ctype:%s' % getattr(t, 'ctype', None))
+    # an unresolved type has neither; its c:type is a representation detail (ctype vs complete ctype)
+    return getattr(t, 'target_giname', None) or getattr(t, 'target_fundamental', None) or '<unresolved>'
 
 
 def core_projection(ns):
